@@ -161,6 +161,15 @@ fn do_drop(log: &ULog, table: &Table, op: &Value) {
         log.log(UK::DropEnd { obj: id });
         return;
     }
+    if jb(op, "in_panic", false) {
+        // fault `drop_during_unwind`: the object is a local of a scope that panics
+        let _ = std::panic::catch_unwind(std::panic::AssertUnwindSafe(move || {
+            let _local = o;
+            std::panic::resume_unwind(Box::new("harness: unwinding through the scope that owns the object"));
+        }));
+        log.log(UK::DropEnd { obj: id });
+        return;
+    }
     match o {
         // the documented alternative way of letting the owner go: Instrumented::emit()
         Obj::Owner(owner) if js(op, "via", "") == "emit" => {
@@ -223,21 +232,36 @@ fn uow_main(plan: &Value, log: ULog) {
                         "wait" => OnParentDrop::Wait(o.flush_guard()),
                         _ => OnParentDrop::Discard,
                     };
-                    let kind: &'static str = match mode {
-                        "wait" => "slot_wait",
-                        "delay" => "slot_delay",
+                    // extra delay_flush calls on a guard that may already be in wait mode
+                    let redelay = ju(op, "redelay", 0) + (mode == "delay") as u64;
+                    // the slot field is overwritten after it was opened: the guard is orphaned (its
+                    // value can no longer reach the entry) but a flush guard entrusted to it
+                    // afterwards still has to be held until the guard is dropped
+                    let overwrite = jb(op, "overwrite", false);
+                    let holds = mode == "wait" || redelay > 0;
+                    let kind: &'static str = match (overwrite, holds, mode) {
+                        (true, true, _) => "orphan_flush",
+                        (true, false, _) => "orphan",
+                        (false, _, "wait") => "slot_wait",
+                        (false, true, _) => "slot_delay",
                         _ => "slot_discard",
                     };
                     if ju(op, "slot", 1) == 1 {
                         if let Some(mut g) = o.s1.open(m) {
-                            if mode == "delay" {
+                            if overwrite {
+                                o.s1 = Slot::default();
+                            }
+                            for _ in 0..redelay {
                                 g.delay_flush(o.flush_guard());
                             }
                             log.log(UK::Create { obj: id, kind });
                             table.put(id, Obj::Slot1(g));
                         }
                     } else if let Some(mut g) = o.s2.open(Sub2::default(), m) {
-                        if mode == "delay" {
+                        if overwrite {
+                            o.s2 = LazySlot::default();
+                        }
+                        for _ in 0..redelay {
                             g.delay_flush(o.flush_guard());
                         }
                         log.log(UK::Create { obj: id, kind });
@@ -343,7 +367,7 @@ impl Model {
         if handles.is_empty() { vec![0] } else { handles }
     }
     fn holds_flush(&self, obj: u64) -> bool {
-        matches!(self.kinds.get(&obj).copied(), Some("flush") | Some("slot_wait") | Some("slot_delay"))
+        matches!(self.kinds.get(&obj).copied(), Some("flush") | Some("slot_wait") | Some("slot_delay") | Some("orphan_flush"))
     }
     /// cond(S) for S = objects whose drop (by `pick`) happened before `s`
     fn cond(&self, s: u64, pick: &BTreeMap<u64, u64>) -> bool {
@@ -505,6 +529,7 @@ pub fn gen_uow(rng: &mut Rng, slots: bool) -> Value {
     let n_create = rng.below(if slots { 5 } else { 7 });
     let mut slot1_open = false;
     let mut slot2_open = false;
+    let mut any_overwrite = false;
     for _ in 0..n_create {
         if rng.chance(0.5) {
             val += 1 + rng.below(5);
@@ -539,9 +564,20 @@ pub fn gen_uow(rng: &mut Rng, slots: bool) -> Value {
                     let id = 100 + 2 * next + if slot == 1 { 0 } else { 1 };
                     next += 1;
                     let mode = *rng.pick(&["wait", "wait", "discard", "delay"]);
-                    main_ops.push(json!({"op":"open_slot","slot":slot,"mode":mode,"obj":id}));
-                    objs.push((id, true));
-                    if slot == 1 { slot1_open = true } else { slot2_open = true }
+                    let mut o = json!({"op":"open_slot","slot":slot,"mode":mode,"obj":id});
+                    if rng.chance(0.2) {
+                        o["redelay"] = json!(1 + rng.below(2));
+                    }
+                    let overwrite = rng.chance(0.08);
+                    if overwrite {
+                        o["overwrite"] = json!(true);
+                        any_overwrite = true;
+                    }
+                    main_ops.push(o);
+                    objs.push((id, !overwrite));
+                    if !overwrite {
+                        if slot == 1 { slot1_open = true } else { slot2_open = true }
+                    }
                 }
             }
         }
@@ -584,10 +620,12 @@ pub fn gen_uow(rng: &mut Rng, slots: bool) -> Value {
             op["via"] = json!("emit");
         } else if rng.chance(0.1) {
             op["in_task"] = json!(true);
+        } else if op.get("forget").is_none() && rng.chance(0.1) {
+            op["in_panic"] = json!(true);
         }
         let mut who = rng.below(nd + 1);
         let is_slot1 = is_slot && id % 2 == 0;
-        if is_slot1 && slots && style != 0 && op.get("forget").is_none() && rng.chance(0.35) {
+        if is_slot1 && slots && style != 0 && !any_overwrite && op.get("forget").is_none() && op.get("in_panic").is_none() && rng.chance(0.35) {
             // the owner waits for this guard's data before it is released: another thread must drop it
             who = rng.below(nd);
             main_ops.insert(owner_pos, json!({"op":"wait_data"}));
@@ -630,6 +668,11 @@ fn uow_report(plan: &Value, check: fn(&[UEv]) -> Option<Violation>) -> Report {
     r.fault("guard_leaked", m.forgotten.len() as u64);
     let in_task = ja(plan, "main_ops").iter().chain(ja(plan, "droppers").iter().flat_map(|d| d.as_array().map(|a| a.iter()).into_iter().flatten())).filter(|o| jb(o, "in_task", false)).count() as u64;
     r.fault("tokio_budget_exhausted", in_task);
+    let in_panic = ja(plan, "main_ops").iter().chain(ja(plan, "droppers").iter().flat_map(|d| d.as_array().map(|a| a.iter()).into_iter().flatten())).filter(|o| jb(o, "in_panic", false)).count() as u64;
+    r.fault("drop_during_unwind", in_panic);
+    if m.kinds.values().any(|k| k.starts_with("orphan")) {
+        r.probe("slot_field_overwritten_after_open", 1);
+    }
     if m.kinds.values().any(|k| *k == "force") {
         r.probe("force_guard_used", 1);
     }
